@@ -406,6 +406,15 @@ structure JState where
   levelB : Nat := 0
   skippedNoHook : Nat := 0
   maxIdx : Nat := 0
+  /-- entities of the current case that are still in the allocator's `raised` set (created atomically,
+      not merged): part of `ents`; for the model and the spec they are ordinary members of the
+      `&entities` mask (alive ∪ raised) with their live generation. Statistics only. -/
+  raisedSet : Std.HashSet Nat := {}
+  raised : Nat := 0
+  raisedCases : Nat := 0
+  raisedGen2 : Nat := 0
+  raisedVisits : Nat := 0
+  raisedOps : Nat := 0
 
 def LIMIT_A : Nat := 524288   -- Level A (array-backed sets) is evaluated for indices below 2^19
 
@@ -441,6 +450,16 @@ def setupEnts (st : JState) (ts : List String) : Option JState := do
   pure { st with w := { st.w with ents := bsetOfList idxs, gens := gens }, alive := alive,
                  lents := some (layersOfSorted idxs),
                  mw := { st.mw with ents := alive }, maxIdx := max st.maxIdx mx }
+
+/-- `raised <tok>*`: a subset of the `ents` line. No semantic content for model or spec. -/
+def setupRaised (st : JState) (ts : List String) : Option JState := do
+  let es ← mapM? parseEntry ts
+  let pairs := es.flatMap (fun (lo, hi, g) => (List.range (hi + 1 - lo)).map (fun j => (lo + j, g)))
+  if pairs.any (fun (i, g) => st.alive.get? i != some g) then none else
+  pure { st with raisedSet := pairs.foldl (fun s p => s.insert p.1) st.raisedSet,
+                 raised := st.raised + pairs.length,
+                 raisedCases := st.raisedCases + (if st.raisedSet.isEmpty && !pairs.isEmpty then 1 else 0),
+                 raisedGen2 := st.raisedGen2 + (pairs.filter (fun p => decide (p.2 ≥ (2 : Int)))).length }
 
 def setupStore (st : JState) (k : Nat) (kind : Kind) (ts : List String) : Option JState := do
   let es ← mapM? parseEntry ts
@@ -779,6 +798,7 @@ def joinLine (st : JState) (line : String) : JState × List String :=
     let st := st.closeCase
     ({ st with caseId := id, lineNo := 0, w := {}, rawSets := {}, hugeSets := [], alive := {},
                lstores := {}, lsets := {}, lents := none, diverged := false, mw := {}, monDead := false,
+               raisedSet := {},
                caseHash := 7, caseNontrivial := false, cases := st.cases + 1 }, [])
   | _ =>
     let st := { st with lineNo := st.lineNo + 1, lines := st.lines + 1, caseHash := mixHash st.caseHash (hash l) }
@@ -786,6 +806,9 @@ def joinLine (st : JState) (line : String) : JState × List String :=
       ({ st with bads := st.bads + 1 }, [s!"BAD case={st.caseId} line={st.lineNo} {why}: {l.take 120}"])
     match lt with
     | "ents" :: ts => match setupEnts st ts with | some s => (s, []) | none => bad st "unparsable ents line"
+    | "raised" :: ts => match setupRaised st ts with
+      | some s => (s, [])
+      | none => bad st "raised line is unparsable or not a subset of the ents line"
     | "store" :: k :: kind :: ts =>
       match k.toNat?, kindOfString kind with
       | some k, some kd => match setupStore st k kd ts with | some s => (s, []) | none => bad st "unparsable store line"
@@ -833,6 +856,8 @@ def joinLine (st : JState) (line : String) : JState × List String :=
           let ks := mo.keys
           let crosses (b : Nat) : Bool := ks.any (· < b) && ks.any (· ≥ b)
           let adj (b : Nat) : Bool := ks.contains (b - 1) && ks.contains b
+          let rv := if st.raisedSet.isEmpty then 0 else (ks.filter (st.raisedSet.contains ·)).length
+          let st := { st with raisedVisits := st.raisedVisits + rv, raisedOps := st.raisedOps + (if rv > 0 then 1 else 0) }
           let st := { st with mw := mo.mw, items := st.items + ks.length,
                               cross64 := st.cross64 + (if crosses 64 then 1 else 0),
                               cross4096 := st.cross4096 + (if crosses 4096 then 1 else 0),
@@ -868,4 +893,4 @@ open SpecsModel.Driver.JoinDom in
 def runJoin (h : IO.FS.Stream) : IO Unit := do
   let st ← joinLoop h {}
   let st := st.closeCase
-  IO.println s!"STATS cases={st.cases} lines={st.lines} diffs={st.diffs} mons={st.mons} bads={st.bads} distinct={st.distinct.size} distinct_nontrivial={st.distinctNontrivial} items={st.items} nohook={st.skippedNoHook} max_index={st.maxIdx} cross64={st.cross64} cross4096={st.cross4096} cross262144={st.cross262144} adj64={st.adj64} adj4096={st.adj4096} adj262144={st.adj262144} {showHist "mode_" st.modes} {showHist "arity_" st.arities}"
+  IO.println s!"STATS cases={st.cases} lines={st.lines} diffs={st.diffs} mons={st.mons} bads={st.bads} distinct={st.distinct.size} distinct_nontrivial={st.distinctNontrivial} items={st.items} nohook={st.skippedNoHook} max_index={st.maxIdx} raised={st.raised} raised_cases={st.raisedCases} raised_gen2={st.raisedGen2} raised_visits={st.raisedVisits} raised_ops={st.raisedOps} cross64={st.cross64} cross4096={st.cross4096} cross262144={st.cross262144} adj64={st.adj64} adj4096={st.adj4096} adj262144={st.adj262144} {showHist "mode_" st.modes} {showHist "arity_" st.arities}"
